@@ -6,6 +6,19 @@ import json, os
 ALL = ["C%02d" % i for i in range(1, 53)]
 
 CLAIMED = {
+ "C11": dict(
+   text="For each of the 14 sized integer types plus Int/UInt and each of + - * / % and unary minus, the real interpreter method is executed symbolically (machine ints as mathematical integers with Go's wrap/truncation spelled out; big.Int by an exact model) and an SMT solver shows, for every operand pair of the full width, that the result equals the exact integer result or the failure is the right overflow/underflow/division-by-zero error.",
+   note="Full operand width, no bound on values (Int/UInt unbounded). Assumes operands satisfy the representation invariant and have equal types; gauge nil, big-int metering estimators stubbed (C32). Trusted: go/ssa, the executor and its math/big model (validated per path against the native build), solvers.",
+   design="3 C11"),
+ "C12": dict(
+   text="Word8..Word256 + - * / %: solver shows for every operand pair that the real method never fails (except division by zero) and returns the exact result modulo 2^n.",
+   note="Full width. Same assumptions and trusted base as C11.", design="3 C12"),
+ "C13": dict(
+   text="Every saturating function the language declares for integer types (Int8..Int256 all four, UInt8..UInt256 add/subtract/multiply, UInt subtract): solver shows for every operand pair that the real method returns clamp(exact result) and fails only for division by zero.",
+   note="Full width. The declared set is taken from the language reference (a table in the generator). Fixed-point saturating functions: see evidence bounds (added with C15).", design="3 C13"),
+ "C35": dict(
+   text="LEB128: for every uint32/uint64/int32/int64 the real Append* followed by Read* (with arbitrary trailing bytes) returns the same integer and the encoded length, the encoding has the canonical length, and the decoders never crash or over-read on any buffer of <= 11 bytes; AppendUint32FixedLength for every length 0..5.",
+   note="Part of C35 only: LEB128 (full integer width; decoder buffers <= 11 bytes). Instruction codec: see evidence. Compilation determinism is outside the claim (compiler over program ASTs is not encodable).", design="3 C35"),
  "C46": dict(
    text="Bounded symbolic model checking of the real rlp.ReadSize/DecodeString/DecodeList SSA: for every input of the stated lengths (all byte values, incl. 8-byte length prefixes up to 2^64-1) an SMT solver shows no run-time panic is reachable and acceptance/result equal an independent reference decoder; every feasible path is also replayed natively.",
    note="Bounds: input length <= 10 (quick) / 14 (thorough) for strings and headers, <= 4 / 6 for unconstrained lists plus lists with a long-form first item up to 10 / 12 bytes. Trusted: go/ssa, my SSA->SMT executor (validated per path against the native build), z3/cvc5. atree array conversion in the Cadence wrapper is outside.",
@@ -23,9 +36,6 @@ NA_REASON = {
  "C08": "subtyping over type graphs built from init-time pointer structures; symbolic execution degenerates to enumeration",
  "C09": "casts vs isInstance over values x types in both engines",
  "C10": "condition enforcement over program ASTs / desugaring",
- "C11": "not built yet",
- "C12": "not built yet",
- "C13": "not built yet",
  "C14": "not built yet",
  "C15": "not built yet",
  "C16": "not built yet",
@@ -43,7 +53,6 @@ NA_REASON = {
  "C32": "not built yet",
  "C33": "outcome determinism across processes and map seeds",
  "C34": "VM vs interpreter equivalence on whole programs",
- "C35": "not built yet",
  "C36": "schedules / data races; the encoder is sequential",
  "C37": "not built yet (stretch kernel: lexer on <=3 bytes)",
  "C38": "printer round trip AST -> Doc -> text -> parser", "C39": "formatter round trip over ASTs",
